@@ -207,6 +207,9 @@ impl Accept {
                         self.paused = false;
 
                         sockets.iter_mut().for_each(|info| {
+                            // a back-off deadline left over from before is obsolete now;
+                            // keeping it would make the next pause skip this socket
+                            info.timeout = None;
                             self.register_logged(info);
                         });
 
